@@ -462,6 +462,89 @@ def judge_c_data_model(names):
     return bad, n
 
 
+ENV_CHILD = r"""
+import io, json, os, sys
+from mc import build as B
+from mc import ev as E
+from pykdebugparser.pykdebugparser import PyKdebugParser
+logs = B.v3_block(B.TAG_LOG_EVENTS, B.bplist({'Events': [
+    {'cm': 1, 't': 'logEvent', 's': 1, 'tid': 1, 'ns': 5, 'mct': 6, 'b': b'B' * 16, 'piu': b'P' * 16,
+     'ud': {'sec': 1600000000, 'usec': 7}, 'utz': {'mw': 0, 'dt': 0}, 'p': 2, 'pid': 10}]}))
+sidx = B.v3_block(B.TAG_LOG_STRINGS, B.bplist({'StringIndex': {'hello': 1, 'proc': 2}}))
+recs = [B.rec(1000, (0, 0, 0, 0), 1, E.n2i('BSC_getpid') | 1), B.rec(2000, (0, 5, 0, 0), 1, E.n2i('BSC_getpid') | 2),
+        B.rec(3000, (0x8, 7, 0, 0), 1, E.n2i('PERF_Event') | 1), B.rec(3001, (1, 1, 0, 0), 1, E.n2i('PERF_STK_UHdr')),
+        B.rec(3002, (0x1010, 0, 0, 0), 1, E.n2i('PERF_STK_UData')), B.rec(3003, (0, 0, 0, 0), 1, E.n2i('PERF_Event') | 2)]
+blob = B.v3([(1, 10, 'proc')], [recs], [sidx, logs])
+out = {}
+for color in (True, False):
+    for api in ('formatted_logs', 'formatted_traces', 'formatted_kevents', 'formatted_callstacks'):
+        f = PyKdebugParser()
+        f.color = color
+        try:
+            out[api + (':colour' if color else ':plain')] = list(getattr(f, api)(io.BytesIO(blob))) if api == 'formatted_logs' else \
+                list(getattr(f, api)(io.BytesIO(blob), dict(E.codes())))
+        except Exception as ex:
+            out[api + (':colour' if color else ':plain')] = 'RAISED ' + type(ex).__name__
+out['stdout-is-a-terminal'] = os.isatty(1)
+os.write(int(os.environ['VERIF_OUT_FD']), json.dumps(out).encode())
+"""
+
+
+def judge_host_environment():
+    """the same dump and the same options (colour on / off) in child interpreters whose ENVIRONMENT differs: standard output a pipe or
+    a terminal, TERM, NO_COLOR, FORCE_COLOR, ANSI_COLORS_DISABLED, CLICOLOR, COLUMNS. The lines are the same."""
+    import json
+    import os
+    import pty
+    import subprocess
+    import sys
+    envs = {'piped': {}, 'terminal': {'TERM': 'xterm-256color'}, 'terminal-TERM=dumb': {'TERM': 'dumb'}, 'piped-NO_COLOR': {'NO_COLOR': '1'},
+            'piped-FORCE_COLOR': {'FORCE_COLOR': '1'}, 'piped-ANSI_COLORS_DISABLED': {'ANSI_COLORS_DISABLED': '1'},
+            'piped-CLICOLOR_FORCE+COLUMNS=20': {'CLICOLOR_FORCE': '1', 'CLICOLOR': '0', 'COLUMNS': '20', 'LINES': '5'}}
+    seen = {}
+    for label, extra in envs.items():
+        env = {k: v for k, v in os.environ.items() if k not in ('TERM', 'NO_COLOR', 'FORCE_COLOR', 'ANSI_COLORS_DISABLED', 'CLICOLOR', 'CLICOLOR_FORCE', 'COLUMNS', 'LINES', 'COLORTERM')}
+        env.update(extra)
+        r, w = os.pipe()
+        env['VERIF_OUT_FD'] = str(w)
+        master = slave = None
+        try:
+            if label.startswith('terminal'):
+                master, slave = pty.openpty()
+                proc = subprocess.run([sys.executable, '-c', ENV_CHILD], stdin=subprocess.DEVNULL, stdout=slave, stderr=subprocess.PIPE, env=env, pass_fds=(w,), timeout=120)
+            else:
+                proc = subprocess.run([sys.executable, '-c', ENV_CHILD], stdin=subprocess.DEVNULL, stdout=subprocess.PIPE, stderr=subprocess.PIPE, env=env, pass_fds=(w,), timeout=120)
+            os.close(w)
+            w = None
+            data = b''
+            while True:
+                chunk = os.read(r, 1 << 16)
+                if not chunk:
+                    break
+                data += chunk
+        finally:
+            for fd in (r, w, master, slave):
+                if fd is not None:
+                    try:
+                        os.close(fd)
+                    except OSError:
+                        pass
+        if proc.returncode != 0:
+            return [('harness:environment-child-failed', {'label': label, 'stderr': proc.stderr.decode('utf-8', 'replace')[-300:]})]
+        seen[label] = json.loads(data.decode())
+        if seen[label]['stdout-is-a-terminal'] != label.startswith('terminal'):
+            return [('harness:environment-child-terminal-model-not-in-force', {'label': label})]
+    ref = seen['piped']
+    bad = []
+    done = set()
+    for label, got in seen.items():
+        for k in ref:
+            if k != 'stdout-is-a-terminal' and got[k] != ref[k] and k not in done:
+                done.add(k)
+                bad.append(('host-dependent-output:environment-of-the-process@' + k, {'environment': label, 'got': repr(got[k])[:200], 'piped_without_variables': repr(ref[k])[:200]}))
+    return bad
+
+
 def judge_host_locale():
     """the same dump (non-ASCII path, thread name, global string, process name) and the same UTF-8 code-table file, in child
     interpreters started under different host locale settings: the output is the same."""
@@ -496,7 +579,7 @@ class C18(Check):
             'restored after each case. Inputs: every BSD decoder x END error word 0..255 and 9999; every BSD decoder x every numeric START position x value 0..64 (a word that a new code path looks up in a host table shows here); sigaction x signal 0..40; '
             'socket/socketpair/socket_delegate x family 0..45 x type 0..7; get/setsockopt x level {0,1,6,0xffff} x every declared '
             'SO_ option + 2 undeclared. Oracle: the rendered text (or the exception type) is identical under every configuration. '
-            'Plus the log / trace / event lines of one version-3 dump (log records near midnight) with the timezone option unset and set, under the host time zones UTC, EST5EDT, NZST-12NZDT, IST-5:30: identical. Plus every BSD decoder with words 2^31, 2^32+5, 2^63, 2^64-1 in each numeric START position and in the END return word, in two child interpreters, one of which has ctypes.c_long / c_ulong replaced by the 32-bit types before the library is imported (an LLP64 host), one whose struct module reads formats without an explicit byte order as big-endian (a big-endian host), two more under other string-hash seeds (PYTHONHASHSEED): identical. Plus a child interpreter in which every absolute path outside the interpreter / library / harness / temp directory exists and is a readable code table (files of the host). Plus child interpreters started under three host locale settings (UTF-8 locale; C locale without coercion, i.e. ASCII file-system and default text encoding; POSIX with UTF-8 mode) formatting one dump with non-ASCII path / thread name / global string / process name and loading one UTF-8 code-table file: identical. Plus a static scan of every import in pykdebugparser/** against the list of host-dependent stdlib modules: anything '
+            'Plus the log / trace / event lines of one version-3 dump (log records near midnight) with the timezone option unset and set, under the host time zones UTC, EST5EDT, NZST-12NZDT, IST-5:30: identical. Plus every BSD decoder with words 2^31, 2^32+5, 2^63, 2^64-1 in each numeric START position and in the END return word, in two child interpreters, one of which has ctypes.c_long / c_ulong replaced by the 32-bit types before the library is imported (an LLP64 host), one whose struct module reads formats without an explicit byte order as big-endian (a big-endian host), two more under other string-hash seeds (PYTHONHASHSEED): identical. Plus the four listings of one version-3 dump with colour on and off in child interpreters whose environment differs (standard output a pipe / a pseudo-terminal, TERM dumb, NO_COLOR, FORCE_COLOR, ANSI_COLORS_DISABLED, CLICOLOR_FORCE + COLUMNS): identical. Plus a child interpreter in which every absolute path outside the interpreter / library / harness / temp directory exists and is a readable code table (files of the host). Plus child interpreters started under three host locale settings (UTF-8 locale; C locale without coercion, i.e. ASCII file-system and default text encoding; POSIX with UTF-8 mode) formatting one dump with non-ASCII path / thread name / global string / process name and loading one UTF-8 code-table file: identical. Plus a static scan of every import in pykdebugparser/** against the list of host-dependent stdlib modules: anything '
             'beyond the three modelled seams is a violation. states = configurations; transitions = renders; non-trivial = input '
             'whose rendering shows a host-table name under at least one configuration.')
     assumptions = ('the host is modelled by the interpreter tables the code imports today plus the import scan; a dependency through '
@@ -511,7 +594,7 @@ class C18(Check):
         names = [n for n in D.decoder_names() if n.startswith('BSC_')]
         return [('errno', ch) for ch in chunked(names, 32)] + [('small', ch) for ch in chunked(names, 32)] + [('signal',), ('socket', 'BSC_socket'), ('socket', 'BSC_socketpair'),
                                                                ('socket', 'BSC_socket_delegate'), ('sockopt', 'BSC_getsockopt'),
-                                                               ('sockopt', 'BSC_setsockopt'), ('imports',), ('tz',), ('locale',)] + [('datamodel', ch) for ch in chunked(names, 48)]
+                                                               ('sockopt', 'BSC_setsockopt'), ('imports',), ('tz',), ('locale',), ('environment',)] + [('datamodel', ch) for ch in chunked(names, 48)]
 
     def _compare(self, acc, name, s, e):
         cfgs = configurations()
@@ -581,6 +664,10 @@ class C18(Check):
             for sig, detail in judge_host_locale():
                 acc.violation(sig, {'kind': 'locale'}, detail)
             acc.case(nontrivial=True, transitions=12, state=h64('locale'))
+        elif kind == 'environment':
+            for sig, detail in judge_host_environment():
+                acc.violation(sig, {'kind': 'environment'}, detail)
+            acc.case(nontrivial=True, transitions=56, state=h64('environment'))
         elif kind == 'tz':
             for sig, detail in judge_host_timezone():
                 acc.violation(sig, {'kind': 'tz'}, detail)
@@ -596,6 +683,8 @@ class C18(Check):
             return judge_host_timezone()
         if case.get('kind') == 'locale':
             return judge_host_locale()
+        if case.get('kind') == 'environment':
+            return judge_host_environment()
         if case.get('kind') == 'datamodel':
             return [(sig, detail) for sig, c, detail in judge_c_data_model([case['decoder']])[0]]
         if case.get('kind') == 'import':
